@@ -16,11 +16,24 @@ package main
 //     slot immediately while somebody waits (the best waiter is passed over).
 //     A hit is raised only when that waiter later expires.
 //
-// Classifier = side conditions of C10_holds_outside_findings:
-//   okP violated (a pass ran while a waiter was between Unlock and select)  -> F-C10
-//   okQ violated (an arrival ran its locked part on a stale window, i.e.
-//                 after a boundary and before the roll-over pass)          -> F-C10b
-//   neither: not a known finding.
+// Classifier = the side conditions of C10_holds_outside_findings /
+// C10_no_pass_over_before_first_finding (theories/C10/Property.v), evaluated
+// EVENT BY EVENT on the executed schedule:
+//   no_lost_handoff violated at a pass: the pass popped the heap entry of a
+//       waiter that was between Unlock and the select (seen from outside: the
+//       waiter was held at dpq.unlocked during the pass, and after the pass
+//       quota of the window is still free or a waiter of worse (priority,
+//       arrival) was released by it — a pass pops in order until its slots are
+//       gone, so exactly then it went past that entry)              -> F-C10 event
+//   no_barging violated at an arrival: it ran its locked part on a stale window
+//       (after a boundary, before the roll-over pass) AND was given a slot
+//       while somebody waited                                        -> F-C10b event
+// A stranded waiter is filed under a known finding only if such an event
+// happened at or before the step at which it was passed over (its own entry
+// lost -> F-C10; else a barging event -> F-C10b; else a lost hand-off of another
+// waiter -> F-C10).  A pass that runs while somebody is unparked but pops
+// nothing, or a stale arrival on an idle queue, is no such event: a strand next
+// to those keeps its own signature and is a VIOLATION.
 // Suite atomic (atomic.go) adds nothing to the rules; it only refines the
 // signature: a size-bound hit in a history in which some operation completed
 // between an admission decision and its push is "size-bound:enqueue-not-atomic",
@@ -42,8 +55,10 @@ type mreq struct {
 	id, prio       int
 	ts, ttl, at    int64
 	mark           string
-	unparkedAtPass bool
-	passInside     bool // a roll-over pass completed between its admission decision and its push
+	known          string // signature of the known finding that explains the mark ("" = none), fixed when marked
+	unparkedAtPass bool   // informative: held at dpq.unlocked during some pass
+	lost           bool   // its heap entry was popped by a pass while it was unparked (exact F-C10 event)
+	passInside     bool   // a roll-over pass completed between its admission decision and its push
 }
 
 func better(a, b *mreq) bool { // a strictly before b in (priority, arrival) order
@@ -63,7 +78,7 @@ func monitor(k *Case) []c.Hit {
 	var waiting []*mreq
 	rel := map[int64]int64{}
 	lastRefresh := k.QueueT0
-	anyStale, anyUnparked, notAtomic := false, false, false
+	lostEvents, bargeEvents, notAtomic := 0, 0, false
 	for _, e := range k.Events {
 		if e.K == "arrive" && e.RanInside > 0 {
 			notAtomic = true
@@ -85,6 +100,14 @@ func monitor(k *Case) []c.Hit {
 		}
 		return b
 	}
+	isWaiting := func(id int) bool {
+		for _, w := range waiting {
+			if w.id == id {
+				return true
+			}
+		}
+		return false
+	}
 	remove := func(id int) {
 		for i, w := range waiting {
 			if w.id == id {
@@ -101,10 +124,28 @@ func monitor(k *Case) []c.Hit {
 		}
 	}
 
+	// setMark: the first step at which the waiter is passed over, and whether a
+	// known-finding event at or before that step explains it
+	setMark := func(b *mreq, why string, bargingHere bool) {
+		if b.mark != "" {
+			return
+		}
+		b.mark = why
+		switch {
+		case b.lost:
+			b.known = sigLost
+		case bargingHere, bargeEvents > 0:
+			b.known = sigBarging
+		case lostEvents > 0:
+			b.known = sigLost
+		}
+	}
+
 	// a pass is judged once the returns it caused have been seen
 	type passInfo struct {
 		at, next int64
 		released []*mreq
+		unparked []*mreq
 	}
 	var pend *passInfo
 	closePass := func() {
@@ -117,16 +158,32 @@ func monitor(k *Case) []c.Hit {
 			add("tick-not-at-boundary", fmt.Sprintf("after the pass at %d the roll-over goroutine sleeps until the window end %d", p.at, want),
 				fmt.Sprintf("it sleeps until %d", p.next))
 		}
+		// exact F-C10 events of this pass: an unparked waiter whose entry the pass went past
+		for _, u := range p.unparked {
+			if u.lost || !isWaiting(u.id) {
+				continue
+			}
+			popped := rel[win(p.at)] < k.Quota
+			for _, r := range p.released {
+				if better(u, r) {
+					popped = true
+				}
+			}
+			if popped {
+				u.lost = true
+				lostEvents++
+			}
+		}
 		b := best()
 		if b == nil {
 			return
 		}
-		if rel[win(p.at)] < k.Quota && b.mark == "" {
-			b.mark = fmt.Sprintf("quota-free-after-pass@%d", p.at)
+		if rel[win(p.at)] < k.Quota {
+			setMark(b, fmt.Sprintf("quota-free-after-pass@%d", p.at), false)
 		}
 		for _, r := range p.released {
-			if better(b, r) && b.mark == "" {
-				b.mark = fmt.Sprintf("worse-served-first@%d(by %d)", p.at, r.id)
+			if better(b, r) {
+				setMark(b, fmt.Sprintf("worse-served-first@%d(by %d)", p.at, r.id), false)
 			}
 		}
 	}
@@ -141,9 +198,6 @@ func monitor(k *Case) []c.Hit {
 		switch e.K {
 		case "arrive":
 			stale := win(e.At) > win(lastRefresh)
-			if stale {
-				anyStale = true
-			}
 			if e.At > lastRefresh {
 				lastRefresh = e.At
 			}
@@ -152,8 +206,12 @@ func monitor(k *Case) []c.Hit {
 			switch {
 			case e.Immediate && e.Result:
 				grant(e.ID, e.At)
-				if b := best(); b != nil && b.mark == "" {
-					b.mark = fmt.Sprintf("slot-to-newcomer@%d(%d)", e.At, e.ID)
+				barging := stale && len(waiting) > 0 // exact F-C10b event
+				if barging {
+					bargeEvents++
+				}
+				if b := best(); b != nil {
+					setMark(b, fmt.Sprintf("slot-to-newcomer@%d(%d)", e.At, e.ID), barging)
 				}
 			case e.Immediate:
 				if int64(len(waiting)) < k.QSize {
@@ -175,13 +233,13 @@ func monitor(k *Case) []c.Hit {
 			}
 		case "pass":
 			lastRefresh = e.At
+			pend = &passInfo{at: e.At, next: e.NextTick}
 			for _, id := range e.Unparked {
-				anyUnparked = true
 				if r := reqs[id]; r != nil {
 					r.unparkedAtPass = true
+					pend.unparked = append(pend.unparked, r)
 				}
 			}
-			pend = &passInfo{at: e.At, next: e.NextTick}
 		case "ret":
 			r := reqs[e.ID]
 			remove(e.ID)
@@ -201,12 +259,8 @@ func monitor(k *Case) []c.Hit {
 				switch {
 				case r.passInside:
 					sig = sigNotAtomicStrand
-				case r.unparkedAtPass:
-					sig = sigLost
-				case anyStale:
-					sig = sigBarging
-				case anyUnparked:
-					sig = sigLost
+				case r.known != "":
+					sig = r.known
 				}
 				add(sig, fmt.Sprintf("request %d (priority %d, arrival %d), whose turn had come (%s), is released, not left to expire", r.id, r.prio, r.ts, r.mark),
 					fmt.Sprintf("it expired at %d", e.At))
